@@ -137,6 +137,7 @@ func RunXport(t *testing.T, p *plan.Plan, keepLog int) *Result {
 			installKnobs(s, p.Knobs)
 			defer uninstallKnobs()
 			netPolicies(w, s, &xp.Net, nil, xp.Upstreams)
+			w.ICMP = xp.Net.ICMP
 			h := &XHistory{P: p, XP: xp, S: s, CloseAt: map[int][]time.Duration{}, CloseRet: map[int][]time.Duration{}, Events: xp.ServerEvents}
 			var hmu sync.Mutex
 			w.OnDial = func(owner vnet.Owner, network, address, resolved string) {
@@ -236,6 +237,12 @@ func RunXport(t *testing.T, p *plan.Plan, keepLog int) *Result {
 						go func() {
 							srv.Stop()
 							time.Sleep(300 * time.Millisecond)
+							srv.Start()
+						}()
+					case "down":
+						go func() {
+							srv.Stop()
+							time.Sleep(time.Duration(ev.DownMs) * time.Millisecond)
 							srv.Start()
 						}()
 					}
@@ -711,7 +718,8 @@ func eventIn(h *XHistory, up int, from, to time.Duration) bool {
 		before = 35 * time.Second
 	}
 	for _, e := range h.Events {
-		if e.Up == up && us(e.AtUs) >= from-before && us(e.AtUs) <= to+time.Second {
+		// (a "down" event lasts: the server is back DownMs later)
+		if e.Up == up && us(e.AtUs)+time.Duration(e.DownMs)*time.Millisecond >= from-before && us(e.AtUs) <= to+time.Second {
 			return true
 		}
 	}
@@ -814,6 +822,39 @@ func checkC14(h *XHistory) {
 			}
 		}
 	}
+	// a udp server that is gone answers with "port unreachable": the socket is
+	// dead for the transport, and an exchange on it fails (or is retried, and
+	// refused again) at once instead of waiting out its deadline
+	if h.XP.Net.ICMP && !faulty && len(h.XP.Net.Partitions) == 0 {
+		for _, ev := range h.XP.ServerEvents {
+			if ev.Kind != "down" || ev.Up >= len(h.Ups) || h.Ups[ev.Up].Spec.Kind != "udp" {
+				continue
+			}
+			from, to := us(ev.AtUs)+10*time.Millisecond, us(ev.AtUs)+time.Duration(ev.DownMs)*time.Millisecond
+			// (another event in between may bring the server back early)
+			overlap := false
+			for _, o := range h.XP.ServerEvents {
+				if o != ev && o.Up == ev.Up && us(o.AtUs) >= from-2*time.Second && us(o.AtUs) <= to+time.Second {
+					overlap = true
+				}
+			}
+			if overlap {
+				continue
+			}
+			for _, c := range h.Calls {
+				if c.C.Up != ev.Up || !c.Done || c.C.CancelUs != 0 || c.Limit < 3*time.Second {
+					continue
+				}
+				if c.Start < from || c.Start+2*time.Second > to {
+					continue
+				}
+				s.Probe("c14_refused_checked")
+				if c.End > c.Start+time.Second+8*us(h.XP.Net.UpLatUs[1])+sigma {
+					s.Fail("C14", "refused-waited-out-deadline", "call %d (token %s, limit %v) to udp upstream %s, whose port answered \"unreachable\" from %v to %v, returned only after %v: %s", c.C.Idx, c.C.Token, c.Limit, h.Ups[ev.Up].Spec.Tag, from, to, c.End-c.Start, c.Err)
+				}
+			}
+		}
+	}
 	// bounded dialling
 	nd := map[string]int{}
 	for _, d := range h.Dials {
@@ -856,6 +897,12 @@ func checkC14(h *XHistory) {
 			for _, q := range u.Queries {
 				if g, gone := u.ConnGone[q.Conn]; gone && g < te {
 					continue // that connection had died earlier
+				}
+				if g, ok := u.ConnAbandoned[q.Conn]; ok && g <= te {
+					// the proxy itself had closed its end before the server's reset
+					// (it reads garbage, say): the waiter had left already and is
+					// busy retrying - a dial that the network may keep waiting
+					continue
 				}
 				if q.Token == c.C.Token && q.At < te {
 					answered := false
